@@ -1,6 +1,7 @@
 SPECIFICATION TSpec
 CONSTANTS
   Anns = {"both"}
+  Devs = {"all", "short", "fail"}
   Sizes = {0}
   MaxFaults = 99
   FaultKinds = {"Flip", "Drop", "Dup", "Swap", "Cut"}
